@@ -42,6 +42,75 @@ func DescribeExp(es []Expect) []string {
 // CompareDeliveries matches received PUBLISH packets against expectations.
 // It returns ("","") or a violation key and a description.
 func CompareDeliveries(gotP []*packet.Publish, exp []Expect) (string, string) {
+	// Several expectations may share topic, payload and retain flag (two empty
+	// retained publishes at different QoS): deliveries of such a group are
+	// assigned to its expectations by search, not first-come. Only when no
+	// assignment exists does the first-match pass below produce the diagnosis.
+	type gkey struct {
+		t, p string
+		r    bool
+	}
+	groups := map[gkey][]int{}
+	for i, e := range exp {
+		k := gkey{e.Topic, e.Payload, e.Retain}
+		groups[k] = append(groups[k], i)
+	}
+	ambiguous := false
+	for _, idx := range groups {
+		if len(idx) > 1 {
+			ambiguous = true
+		}
+	}
+	if ambiguous {
+		feasible := true
+		byGroup := map[gkey][]*packet.Publish{}
+		for _, p := range gotP {
+			k := gkey{p.Message.Topic, string(p.Message.Payload), p.Message.Retain}
+			if _, ok := groups[k]; !ok {
+				feasible = false
+				break
+			}
+			if (p.Message.QOS > 0) != (p.ID != 0) {
+				feasible = false
+				break
+			}
+			byGroup[k] = append(byGroup[k], p)
+		}
+		if feasible {
+			for k, idx := range groups {
+				ds := byGroup[k]
+				used := make([]int, len(idx))
+				var rec func(n int) bool
+				rec = func(n int) bool {
+					if n == len(ds) {
+						for j, i := range idx {
+							if used[j] < exp[i].Min {
+								return false
+							}
+						}
+						return true
+					}
+					for j, i := range idx {
+						if exp[i].QOS[ds[n].Message.QOS] && used[j] < exp[i].Max {
+							used[j]++
+							if rec(n + 1) {
+								return true
+							}
+							used[j]--
+						}
+					}
+					return false
+				}
+				if len(ds) > 12 || !rec(0) {
+					feasible = false
+					break
+				}
+			}
+		}
+		if feasible {
+			return "", ""
+		}
+	}
 	used := make([]int, len(exp))
 	for _, p := range gotP {
 		found := -1
